@@ -285,8 +285,9 @@ pub async fn poll_as_group(h: &mut Harness, c: usize, sid: u32, tid: u32, partit
         }
         return;
     };
-    let Some(client_id) = learn_client_id(h, c).await else { return };
-    let is_member = topic.groups[&gid].members.contains(&client_id);
+    // (a user without the right to read clients cannot be told its client id: membership is not judged then,
+    // but the response is still followed - the poll has been served and may have committed an offset)
+    let client_id = learn_client_id(h, c).await;
     let p = match partition {
         Some(p) => {
             if !topic.partitions.contains_key(&p) {
@@ -295,6 +296,16 @@ pub async fn poll_as_group(h: &mut Harness, c: usize, sid: u32, tid: u32, partit
             p
         }
         None => {
+            let Some(client_id) = client_id else {
+                h.stats.probe("group_poll_by_a_client_of_unknown_id");
+                match &result {
+                    // only a member is served without a partition id, and nobody joins without a known id
+                    Ok(polled) => h.violate("C08", "only_members_are_served", "non_member_served", format!("a client that never joined group {gid} was served from partition {}", polled.partition_id)),
+                    Err(_) => {}
+                }
+                return;
+            };
+            let is_member = topic.groups[&gid].members.contains(&client_id);
             if !is_member {
                 if result.is_ok() {
                     h.violate("C08", "only_members_are_served", "non_member_served", format!("client {client_id} is not a member of group {gid} but its poll succeeded"));
